@@ -1,10 +1,16 @@
 package main
 
+import "verif/engine/sym"
+
 func init() {
 	register(&Spec{
 		ID:       "C06",
-		Pkgs:     []string{"rules"},
-		InitPkgs: []string{"rules"},
+		Pkgs:     []string{"root", "rules", "filterutil", "lookup", "filterlist"},
+		InitPkgs: []string{"filterutil", "rules", "filterlist", "lookup", "root"},
+		Setup: func(e *sym.Engine, st *sym.State, l *sym.Loaded) {
+			setupNetip(e, st, l)
+			e.Redirects["(*"+modPath+".NetworkEngine).MatchAll"] = l.Pkgs[modPath].Func("verifMatchAllStub")
+		},
 		Jobs: func(tier string) []Job {
 			jobs := []Job{{Pkg: "rules", Func: "verifC06Vacuity", Vacuity: true}}
 			maxK, maxS, maxD, maxT := 2, 2, 3, 1
@@ -26,14 +32,21 @@ func init() {
 					}
 				}
 			}
+			for k := 0; k <= 2; k++ {
+				for s := 0; s <= 1; s++ {
+					for ws := 0; ws <= 1; ws++ {
+						jobs = append(jobs, Job{Pkg: "root", Func: "verifC06Wiring", Args: []int64{int64(k), int64(s), int64(ws)}})
+					}
+				}
+			}
 			return jobs
 		},
-		MustReach: []string{"c06.allow", "c06.block", "c06.none", "c06.dns", "c06.twin"},
+		MustReach: []string{"c06.allow", "c06.block", "c06.none", "c06.dns", "c06.twin", "c06.wiring"},
 		Bounds: map[string]string{
 			"quick":    "web: k<=2 request rules and s<=2 referrer rules; DNS: k<=3; twin insertion: base list k<=1, every pair of insertion positions; each rule: exception flag, 64-bit option word and 32-bit type mask symbolic under InvRule, pattern letter, $domain present or not, $dnsrewrite present or not",
 			"thorough": "web: k<=3, s<=2; DNS: k<=4; twin insertion: base k<=2",
 		},
-		Outside:     []string{"Engine.MatchRequest / NetworkEngine.Match wiring (MatchAll results are the harness lists)", "unparseable option bits ($csp/$replace/$cookie/$redirect) are zero under InvRule", "more rules per request than the bound"},
+		Outside:     []string{"the lookup behind MatchAll (C01): in the wiring harness of Engine.MatchRequest / NetworkEngine.Match it returns the harness lists", "unparseable option bits ($csp/$replace/$cookie/$redirect) are zero under InvRule", "more rules per request than the bound"},
 		Assumptions: []string{"InvRule; rules re-parsed from text on native replay"},
 		Rule:        "every rule position holds an arbitrary symbolic rule, so all permutations and splits are covered by symmetry; rewrite presence and selected-rule identity fork",
 	})
